@@ -601,20 +601,42 @@ def _s(e):
 
 
 def _known_pos(e, depth=0):
-    """structurally positive: positive numeral, a variable declared positive, or a sum/product of such"""
+    """structurally positive: positive numeral, a variable declared positive, or a sum/product of such (iterative, memoised)"""
     if e is None:
         return True
-    q = _rq(e)
-    if q is not None:
-        return q > 0
     c = Ctx.current
-    if c is None or depth > 40:
-        return False
-    if z3.is_const(e) or e.get_id() in c.posvars:
-        return e.get_id() in c.posvars
-    if z3.is_app(e) and e.decl().kind() in (z3.Z3_OP_MUL, z3.Z3_OP_ADD):
-        return all(_known_pos(ch, depth + 1) for ch in e.children())
-    return False
+    if c is None:
+        q = _rq(e)
+        return q is not None and q > 0
+    memo = c.__dict__.setdefault("_pos_memo", {})
+    stack = [e]
+    while stack:
+        x = stack[-1]
+        i = x.get_id()
+        if i in memo:
+            stack.pop()
+            continue
+        q = _rq(x)
+        if q is not None:
+            memo[i] = q > 0
+            stack.pop()
+            continue
+        if z3.is_const(x) or i in c.posvars:
+            memo[i] = i in c.posvars
+            stack.pop()
+            continue
+        if z3.is_app(x) and x.decl().kind() in (z3.Z3_OP_MUL, z3.Z3_OP_ADD):
+            ch = x.children()
+            todo = [y for y in ch if y.get_id() not in memo]
+            if todo:
+                stack.extend(todo)
+                continue
+            memo[i] = all(memo[y.get_id()] for y in ch)
+            stack.pop()
+            continue
+        memo[i] = False
+        stack.pop()
+    return memo[e.get_id()]
 
 
 def _rq(e):
